@@ -95,6 +95,7 @@ func (t *FnTrans) instr(b *ssa.BasicBlock, idx int, in ssa.Instruction, st *Heap
 	case *ssa.Call:
 		t.siteHook("call", x, b, idx, st, reach)
 		t.call(x, x.Common(), st, reach, b, idx)
+		t.siteHook("callret", x, b, idx+1, st, reach)
 	case *ssa.Defer:
 		t.deferred = append(t.deferred, x)
 	case *ssa.RunDefers:
@@ -184,7 +185,7 @@ func (t *FnTrans) replaceState(st *HeapState, ns *HeapState) {
 }
 
 func (t *FnTrans) cmpT(op, a, b string, signed bool) string {
-	if t.mode == ModeInt {
+	if t.mode.isInt() {
 		return sx(op, a, b)
 	}
 	var m map[string]string
